@@ -324,4 +324,53 @@ theorem nameSafe_named : ∀ (mods : List Mod) (e : Entry), nameSafe mods = true
   | .presentName _ :: _, _, hs, _ => by simp [nameSafe] at hs
   | .removedName _ :: _, _, hs, _ => by simp [nameSafe] at hs
 
+/-! ## the driver's Boolean checks are the invariants -/
+
+theorem entryOkB_iff (dom : Str) (e : Entry) : entryOkB dom e = true ↔ EntryOk dom e := by
+  unfold entryOkB EntryOk
+  cases hl : e.live <;> cases hg : e.grp <;> cases ha : e.acct <;> simp
+  all_goals
+    cases hsn : single? e.name with
+    | some n => simp
+    | none =>
+      simp only
+      cases e.spn with
+      | none => simp
+      | some v =>
+        cases v with
+        | spn vs =>
+          cases vs with
+          | nil => simp
+          | cons p t =>
+            cases t with
+            | nil => simp; exact ⟨p.1, p.2, rfl⟩
+            | cons q t => simp
+        | iname n => simp
+        | other => simp
+
+theorem invB_iff (s : State) : invB s = true ↔ Inv s := by
+  simp only [invB, Inv, Bool.and_eq_true, beq_iff_eq, List.all_eq_true, entryOkB_iff]
+
+theorem namedB_iff (s : State) : namedB s = true ↔ AllNamed s := by
+  simp only [namedB, AllNamed, Named, List.all_eq_true]
+  constructor
+  · intro h e he hm
+    have := h e he
+    have hmb : (e.grp || e.acct) = true := by rcases hm with h1 | h1 <;> simp [h1]
+    simp only [hmb, Bool.not_true, Bool.false_or, decide_eq_true_eq] at this
+    revert this
+    cases e.name with
+    | nil => simp
+    | cons a t =>
+      cases t with
+      | nil => intro _; exact ⟨a, rfl⟩
+      | cons b t => simp
+  · intro h e he
+    by_cases hmb : (e.grp || e.acct) = true
+    · have hm : e.grp = true ∨ e.acct = true := by simpa using hmb
+      obtain ⟨n, hn⟩ := h e he hm
+      simp [hn]
+    · have : (e.grp || e.acct) = false := by simpa using hmb
+      simp [this]
+
 end Kanidm.Spn
